@@ -174,6 +174,14 @@ def harness_dir():
     sh_dir = os.path.join(CACHE, "harness" + _TAG)
     os.makedirs(sh_dir, exist_ok=True)
     toml = open(os.path.join(h, "Cargo.toml")).read().replace('"/repo/', '"%s/' % REPO)
+    # a scratch worktree may predate a hook commit: do not forward features it does not declare
+    for crate in ("minijinja", "minijinja-autoreload"):
+        try:
+            has = "verif_hooks" in open(os.path.join(REPO, crate, "Cargo.toml")).read()
+        except OSError:
+            has = False
+        if not has:
+            toml = toml.replace('"%s/verif_hooks", ' % crate, "").replace(', "%s/verif_hooks"' % crate, "").replace('"%s/verif_hooks"' % crate, "")
     tp = os.path.join(sh_dir, "Cargo.toml")
     if not os.path.exists(tp) or open(tp).read() != toml:
         open(tp, "w").write(toml)
